@@ -628,4 +628,16 @@ theorem sweep_bounds (s : Sw) (hT : Timed s) (now : Nat) :
     omega
 
 
+/-- converse of `sweep_bounds`: a sweep removes nothing that has not timed out -/
+theorem sweep_keeps (s : Sw) (now : Nat) (fl : Flow) (hm : fl ∈ s.table) (he : fl.expired now = false) :
+    fl ∈ (sweep s now).table := by
+  simp only [sweep, sweepTable]
+  exact List.mem_filter.mpr ⟨hm, by simp [he]⟩
+
+/-- … so the table after a sweep is exactly the unexpired part of the table before -/
+theorem mem_sweep_iff (s : Sw) (now : Nat) (fl : Flow) :
+    fl ∈ (sweep s now).table ↔ fl ∈ s.table ∧ fl.expired now = false := by
+  simp [sweep, sweepTable, List.mem_filter]
+
+
 end Pox.L2
